@@ -240,6 +240,7 @@ PROPS = {
         "theorems": [
             "Foyer.Infl.insert_answers_waiters", "Foyer.Infl.cached_stable_step", "Foyer.Infl.late_fetch_discarded",
             "Foyer.Infl.insert_not_overwritten", "Foyer.Infl.inv_step",
+            "Foyer.Infl.pinsert_closes_flight", "Foyer.Infl.closed_flight_ignores_results",
         ],
         "monitor_props": ["C11"],
         "campaigns": {
@@ -478,8 +479,8 @@ PROPS.update({
                      "Foyer.Hyb.woi_stepCore", "Foyer.Hyb.woi_step", "Foyer.Hyb.woi_reads_truth",
                      "Foyer.Hyb.woe_stepCore", "Foyer.Hyb.woe_step", "Foyer.Hyb.woe_reads_truth",
                      "Foyer.Hyb.rb_stepCore", "Foyer.Hyb.reopen_view", "Foyer.Hyb.woi_reads_truth_reopen",
-                     "Foyer.Hyb.woe_reads_truth_reopen_partial"],
-        "extra_modules": ["FoyerProofs.C01Woi", "FoyerProofs.C01Woe", "FoyerProofs.C01Reopen"],
+                     "Foyer.Hyb.woe_reads_truth_reopen_partial", "Foyer.Hyb.woe_reads_truth_reopen"],
+        "extra_modules": ["FoyerProofs.C01Woi", "FoyerProofs.C01Woe", "FoyerProofs.C01Reopen", "FoyerProofs.C15Flush"],
         "monitor_props": ["C01"],
         "campaigns": {
             "quick": [{"name": "hyb-random", "args": ["cases=250", "maxops=25"]},
@@ -521,8 +522,9 @@ PROPS.update({
                      "Foyer.Hyb.close_without_flush_submits_nothing", "Foyer.Hyb.reopen_index_is_recovery",
                      "Foyer.Hyb.recovery_picks_latest", "Foyer.Hyb.recovery_complete", "Foyer.Hyb.rinv_restarted",
                      "Foyer.Hyb.reopen_view", "Foyer.Hyb.woi_reads_truth_reopen",
-                     "Foyer.Hyb.woe_reads_truth_reopen_partial"],
-        "extra_modules": ["FoyerProofs.C01Reopen"],
+                     "Foyer.Hyb.woe_reads_truth_reopen_partial", "Foyer.flush_lookup_none", "Foyer.fifo_drains",
+                     "Foyer.Hyb.mw_stepCore", "Foyer.Hyb.woe_reads_truth_reopen"],
+        "extra_modules": ["FoyerProofs.C01Reopen", "FoyerProofs.C15Flush"],
         "monitor_props": ["C15"],
         "campaigns": {
             "quick": [{"name": "hyb-reopen", "args": ["cases=250", "maxops=20", "reopen=1"]}],
